@@ -33,6 +33,12 @@ def gen_spec(prop, rng, tier):
         weights = [18, 34, 14, 8, 8, 10, 8]
         nruns = rng.choice([1, 2]) if tier == 'quick' else rng.choice([2, 3, 4])
     wl = gen.gen_workload(rng, weights=weights)
+    if prop == 'C01' and rng.random() < 0.15 and len(wl['seqs']) >= 3:
+        # zero-length input sequences: "one row per NON-EMPTY input sequence, in input order"
+        for _ in range(rng.randint(1, 3)):
+            k = rng.randrange(len(wl['seqs']) + 1)
+            wl['seqs'].insert(k, ''); wl['names'].insert(k, 'empty%d_%d' % (k, rng.randrange(1000)))
+        wl['names'] = ['%s.%d' % (n.split('.')[0][:18], i) for i, n in enumerate(wl['names'])]
     big = wl['profile'] in ('kmeans', 'hirsch', 'medium')
     if prop == 'C01':
         entry = rng.choice(['A', 'LIB', 'LIB', 'CLI', 'CLI_STDOUT'])
@@ -223,7 +229,7 @@ def nontrivial_keys(spec, results):
 def summary(spec, results=None):
     wl = spec['wl']
     s = {'kind': wl['kind'], 'profile': wl['profile'], 'shape': wl['shape'], 'numseq': len(wl['seqs']),
-         'len_min': min(len(x) for x in wl['seqs']), 'len_max': max(len(x) for x in wl['seqs']),
+         'len_min': min(len(x) for x in wl['seqs']), 'len_max': max(len(x) for x in wl['seqs']), 'empty_seqs': sum(1 for x in wl['seqs'] if not x),
          'type': wl['type'], 'gp': [wl['gpo'], wl['gpe'], wl['tgpe']], 'entry': spec['entry'], 'fmt': spec['fmt'],
          'runs': [{'variant': r['variant'], 'nthreads': r['nthreads'],
                    'world': {k: v for k, v in r['world'].items() if k not in ('junk_seed', 'fs_seed')}} for r in spec['runs']]}
